@@ -40,6 +40,8 @@ Definition nadd (c : ncfg) (id ts key now : Z) (s : nst) : nst * list sev :=
   let w' := update_event_time (nooo c) now ts (n_w s) in
   let row := (id, ts, key) in
   let ev0 := SvAdd id ts key in
+  (* a far-future (corrupt) timestamp is ignored by the watermark and dropped by the window *)
+  if now + nooo c + day <? ts then ({| n_sess := n_sess s; n_trig := n_trig s; n_w := w'; n_pend := n_pend s |}, [ev0]) else
   if is_late ts w' then
     (* late: absorbed by the still-open triggered session of its own key, else dropped *)
     let dropped := ({| n_sess := n_sess s; n_trig := n_trig s; n_w := w'; n_pend := n_pend s |}, [ev0]) in
